@@ -1572,3 +1572,265 @@ def check_digest_input(ctx, f, b, key):
     ctx.ob("R-FLOW", key, ok,
            "the digest compared with message_digest is computed over self.content under self.digest_algorithm",
            where=b.loc, detail=detail)
+
+
+
+# ---------------------------------------------------------------------------------------------
+# XML readers: what an attribute arm stores, it stores on every accepting path; per-element slots are fresh
+
+def _captured_state_writes(cb):
+    """blocks of a closure body that write a variable captured from the enclosing function: a store through the closure
+    environment, or a call that is handed a `&mut` to captured state."""
+    from engine.sym import Sym
+    sy = sym_of(cb)
+    out = set()
+    for bi, blk in enumerate(cb.blocks):
+        if blk.get("cleanup"):
+            continue
+        for st in blk["stmts"]:
+            if st["s"] == "assign" and st["pl"]["l"] == 1 and any(p_[0] == "f" for p_ in st["pl"]["p"]):
+                out.add(bi)
+        t = blk["term"]
+        if t["t"] == "call":
+            for a in t["args"]:
+                pl = a.get("m") or a.get("c") if isinstance(a, dict) else None
+                if pl and not pl["p"] and (cb.local_ty(pl["l"]) or "").startswith("&mut "):
+                    if any(x[0] == "upvar" for x in walk(strip_deep(sy.operand(a)))):
+                        out.add(bi)
+    return out
+
+
+def check_attribute_arms(ctx, f, rule, prefix, floor):
+    """In the closures handed to `Element::attributes`, the arm of an attribute name either only checks the value or
+    stores it — and then on every path on which the arm accepts.  (An arm that stores a value only sometimes makes a
+    written attribute — `req_resource_set_as=""` for an explicitly empty set — read back as if it had been absent.)"""
+    from engine.rules import slice_patterns
+    n = 0
+    for name, b in sorted(f.bodies.items()):
+        if not name.startswith(prefix):
+            continue
+        for c in b.calls():
+            if b.is_cleanup(c.bb) or c.name != "attributes" or not (c.res or "").startswith("xml::decode::Element"):
+                continue
+            a = arg_terms(c)
+            ct = strip(a[1]) if len(a) > 1 else ("?",)
+            cb = f.body(ct[1]) if ct[0] == "closure" else None
+            if cb is None or cb.arg_count < 3:
+                continue
+            oc = outcome(cb)
+            rets = oc.returns()
+            writes = _captured_state_writes(cb)
+            arms = {}
+            for w, leaf in slice_patterns(cb, 2):
+                if w is not None:
+                    arms.setdefault(w, set()).add(leaf)
+            if not arms:
+                continue
+            n += 1
+            bad = []
+            for w, leaves in sorted(arms.items()):
+                for leaf in leaves:
+                    reach = cb.reachable(leaf)
+                    if not (writes & reach):
+                        continue                    # a check-only arm
+                    pth = cb.path(leaf, rets, set(oc.fail_blocks) | writes) if rets else None
+                    if pth is not None:
+                        bad.append({"attribute": w.decode("ascii", "replace"), "accepting_path_without_the_store": [cb.line_of(x) for x in pth][:10]})
+            ctx.ob(rule, "%s:attribute-arms-store-unconditionally[%s]" % (short(root_fn(f, name)), ",".join(sorted(x.decode("ascii", "replace") for x in arms))[:80]),
+                   not bad, "each attribute arm of the reader closure in %s that stores the attribute's value does so on every "
+                   "accepting path" % short(root_fn(f, name)), where=cb.loc, detail=bad or None)
+    ctx.floor(rule, "attribute reader closures with named arms under %s" % prefix, n, floor)
+
+
+def check_element_slots_fresh(ctx, f, rule, prefix, floor):
+    """A loop that reads one element per round through a closure filling `Option` slots of the enclosing function
+    (`uri`, `hash`, `action` …) starts every round with every slot empty: each captured slot is assigned `None` (or
+    emptied with `take()` / `mem::take`) on every way round the loop.  A slot that survives a round hands the previous
+    element's attribute to the next element that does not carry it."""
+    n = 0
+    for name, b in sorted(f.bodies.items()):
+        if not name.startswith(prefix) or is_derived_body(b):
+            continue
+        sccs = [set(x) for x in b.cycles_sccs()]
+        if not sccs:
+            continue
+        sy = sym_of(b)
+        for scc in sccs:
+            slots = {}
+            for bi in scc:
+                if b.is_cleanup(bi):
+                    continue
+                for st in b.blocks[bi]["stmts"]:
+                    if st["s"] == "assign" and st["rv"]["r"] == "agg" and st["rv"].get("ak") in ("closure", "coroutine"):
+                        for o in st["rv"]["ops"]:
+                            pl = o.get("m") or o.get("c") if isinstance(o, dict) else None
+                            if not pl or pl["p"]:
+                                continue
+                            # the capture operand is a temp holding `&mut slot`
+                            ds = [d for d in b.defs().get(pl["l"], []) if d[2] == "assign"]
+                            if len(ds) == 1 and ds[0][3]["rv"]["r"] == "ref" and ds[0][3]["rv"].get("mut") and not ds[0][3]["rv"]["pl"]["p"]:
+                                sl = ds[0][3]["rv"]["pl"]["l"]
+                                if (b.local_ty(sl) or "").startswith("std::option::Option<"):
+                                    slots.setdefault(sl, set()).add(bi)
+            if not slots:
+                continue
+            from props.C04 import _every_round_passes
+
+            def read_in_loop(sl):
+                """is the slot's value looked at inside the loop (a per-element slot), or only after it (an accumulator
+                for the whole file, like the notification's `snapshot`)?"""
+                def mentions(node):
+                    if isinstance(node, dict):
+                        if set(node.keys()) >= {"l", "p"} and node.get("l") == sl:
+                            return True
+                        return any(mentions(v) for v in node.values())
+                    if isinstance(node, list):
+                        return any(mentions(v) for v in node)
+                    return False
+                for bi in scc:
+                    if b.is_cleanup(bi):
+                        continue
+                    for st in b.blocks[bi]["stmts"]:
+                        if st["s"] != "assign":
+                            continue
+                        rv = st["rv"]
+                        if rv["r"] in ("ref", "rawptr") and rv.get("mut"):
+                            continue            # handed out mutably: to the reader closure or to take()
+                        if mentions(rv):
+                            return True
+                    t = b.blocks[bi]["term"]
+                    if t["t"] == "switch" and mentions(t.get("discr")):
+                        return True
+                    if t["t"] == "call" and mentions(t.get("args")):
+                        return True
+                return False
+            for sl, creators in sorted(slots.items()):
+                took = False
+                for c in b.calls():
+                    if c.bb in scc and not b.is_cleanup(c.bb) and c.name in ("take", "replace") and c.args and \
+                            c.krate in ("core", "std", "alloc"):
+                        t0 = strip_deep(sy.operand(c.args[0]))
+                        while t0[0] == "mvar":
+                            t0 = ("var", t0[1], t0[2])
+                        took = took or (t0[0] == "var" and t0[2] == sl)
+                if not took and not read_in_loop(sl):
+                    continue
+                n += 1
+                clears = set()
+                for d in b.defs().get(sl, []):
+                    if d[0] in scc and d[2] == "assign" and d[3]["rv"]["r"] == "agg" and d[3]["rv"].get("variant") == "None":
+                        clears.add(d[0])
+                for c in b.calls():
+                    if c.bb in scc and not b.is_cleanup(c.bb) and c.name in ("take", "replace") and c.args and \
+                            c.krate in ("core", "std", "alloc"):
+                        t0 = strip_deep(sy.operand(c.args[0]))
+                        while t0[0] == "mvar":
+                            t0 = ("var", t0[1], t0[2])
+                        if t0[0] == "var" and t0[2] == sl:
+                            clears.add(c.bb)
+                # every round that creates the reader closure also passes a clearing of the slot
+                ok = bool(clears) and _every_round_passes(b, scc, clears)
+                ctx.ob(rule, "%s:slot-fresh-each-round[%s]" % (short(root_fn(f, name)), short((b.local_ty(sl) or "")[20:-1])[:40] + "#%d" % sorted(slots).index(sl)),
+                       ok, "in %s every `Option` slot that the per-element reader closure fills is emptied on every way round "
+                       "the element loop" % short(root_fn(f, name)), where=b.where(min(creators)),
+                       detail=None if ok else {"slot": b.local_name(sl), "emptied_in_blocks": sorted(clears)})
+    ctx.floor(rule, "per-element slots filled by reader closures in loops under %s" % prefix, n, floor)
+
+
+
+# ---------------------------------------------------------------------------------------------
+# what a text reader does with the empty string
+
+_EMPTY_KEEPING = {"chars", "bytes", "iter", "into_iter", "char_indices", "as_bytes", "as_str", "as_ref", "rev", "skip", "take",
+                  "enumerate", "peekable", "map", "filter", "copied", "cloned", "by_ref", "deref", "borrow", "trim", "trim_start",
+                  "trim_end", "to_vec", "to_owned", "clone", "filter_map", "skip_while", "take_while", "fuse", "step_by"}
+
+
+def accepts_empty_input(f, b, pidx):
+    """Does `b` return success when its parameter number `pidx` (a string / byte slice) is empty?  The CFG is walked from
+    the entry; a decision about the input's emptiness (`is_empty`, a comparison of its length with a constant, `next()`
+    / `first()` / `split_first()` / `last()` of the input or of an iterator over it) is taken the way the empty input
+    takes it; any other decision must lead to success on every edge.  -> (True / False, why)."""
+    oc = outcome(b)
+    sy = oc.sym
+    pname = b.local_name(pidx) or "_%d" % pidx
+    rets = set(oc.returns())
+
+    def only_input(t):
+        t = strip_deep(t)
+        rs = [x for x in walk(t) if x[0] in ("param", "upvar", "var")]
+        if not rs or any(not (x[0] == "param" and x[1] == pname) for x in rs):
+            return False
+        return all((x[3] or {}).get("name") in _EMPTY_KEEPING for x in walk(t) if x[0] == "call")
+
+    def length_of_input(t):
+        t = strip_deep(t)
+        return (t[0] == "len" and only_input(t[1])) or \
+            (t[0] == "call" and (t[3] or {}).get("name") in ("len", "count") and len(t[2]) == 1 and only_input(t[2][0]))
+
+    def decide_bool(d):
+        """truth value of a boolean term on the empty input, or None."""
+        d = strip_deep(d)
+        if d[0] == "un" and d[1] == "Not":
+            v = decide_bool(d[2])
+            return None if v is None else not v
+        if d[0] == "call" and (d[3] or {}).get("name") == "is_empty" and len(d[2]) == 1 and only_input(d[2][0]):
+            return True
+        if d[0] == "call" and (d[3] or {}).get("name") in ("is_some", "is_none") and len(d[2]) == 1:
+            inner = strip_deep(d[2][0])
+            if inner[0] == "call" and (inner[3] or {}).get("name") in ("next", "first", "last", "split_first", "split_last", "next_back", "peek") \
+                    and inner[2] and only_input(inner[2][0]):
+                return d[3]["name"] == "is_none"
+        if d[0] == "bin" and d[1] in ("Eq", "Ne", "Lt", "Le", "Gt", "Ge"):
+            x, y = strip_deep(d[2]), strip_deep(d[3])
+            vx = 0 if length_of_input(x) else (x[1] if x[0] == "const" and isinstance(x[1], int) and not isinstance(x[1], bool) else None)
+            vy = 0 if length_of_input(y) else (y[1] if y[0] == "const" and isinstance(y[1], int) and not isinstance(y[1], bool) else None)
+            if vx is not None and vy is not None and (length_of_input(x) or length_of_input(y)):
+                return {"Eq": vx == vy, "Ne": vx != vy, "Lt": vx < vy, "Le": vx <= vy, "Gt": vx > vy, "Ge": vx >= vy}[d[1]]
+        return None
+
+    memo = {}
+
+    def go(bb, onpath):
+        if bb in onpath:
+            return False, "the walk for the empty input comes round a loop at line %s" % b.line_of(bb)
+        if bb in oc.fail_blocks:
+            return False, "reaches the failure at line %s" % b.line_of(bb)
+        if bb in memo:
+            return memo[bb]
+        t = b.term(bb)
+        k = t["t"]
+        res = None
+        if k == "return":
+            res = (True, "") if bb in rets else (False, "?")
+        elif k in ("goto", "drop", "assert") or (k == "call" and t.get("target") is not None):
+            res = go(t["target"], onpath | {bb})
+        elif k == "switch":
+            d = strip_deep(sy.operand(t["discr"]))
+            edges = [(v, tb) for v, tb in b.switch_edges(bb) if b.term(tb)["t"] != "unreachable"]
+            chosen = None
+            if t.get("dty") == "bool":
+                v = decide_bool(d)
+                if v is not None:
+                    chosen = [tb for val, tb in edges if (val == 0) != v] if any(val == 0 for val, _ in edges) else None
+            elif d[0] == "discr":
+                inner = strip_deep(d[1])
+                if inner[0] == "call" and (inner[3] or {}).get("name") in ("next", "first", "last", "split_first", "split_last", "next_back", "peek") \
+                        and inner[2] and only_input(inner[2][0]):
+                    # None is variant 0
+                    listed = [tb for val, tb in edges if val == 0]
+                    chosen = listed or [tb for val, tb in edges if val is None]
+            if chosen:
+                res = go(chosen[0], onpath | {bb})
+            else:
+                res = (True, "")
+                for _, tb in edges:
+                    r = go(tb, onpath | {bb})
+                    if not r[0]:
+                        res = (False, "decision at line %s (%s) is not about the input being empty, and %s" % (b.line_of(bb), render(d)[:80], r[1]))
+                        break
+        else:
+            res = (False, "terminator %s at line %s" % (k, b.line_of(bb)))
+        memo[bb] = res
+        return res
+    return go(0, frozenset())
